@@ -395,6 +395,281 @@ def render(functions, terminals):
     return "\n".join(o) + "\n"
 
 
+# ---------------------------------------------------------------------------------------------
+# the print-format machinery: out::print_format_t, the manipulators, operator<< of i_mep / team
+# ---------------------------------------------------------------------------------------------
+
+def _enum(docs, name):
+    es = [d for d in docs if d.get("kind") == "EnumDecl" and d.get("name") == name]
+    if not es:
+        raise Refuse("enum %s not found" % name)
+    out, nxt = [], 0
+    for c in kids(es[0]):
+        if c.get("kind") != "EnumConstantDecl":
+            continue
+        ce = find_all(c, lambda x: x.get("kind") == "ConstantExpr" and "value" in x)
+        inner = [k for k in kids(c) if not k.get("kind", "").endswith("Comment")]
+        if inner and not ce:
+            raise Refuse("enumerator %s has an initialiser that is not a constant expression" % c.get("name"))
+        v = int(ce[0]["value"]) if ce else nxt
+        out.append((c.get("name"), v))
+        nxt = v + 1
+    return out
+
+
+def _fn_with_body(docs, name, pred=lambda d: True):
+    fs = [d for d in docs if d.get("kind") == "FunctionDecl" and d.get("name") == name and pred(d)
+          and any(k.get("kind") == "CompoundStmt" for k in kids(d))]
+    if len(fs) != 1:
+        raise Refuse("definition of %s not found (%d candidates)" % (name, len(fs)))
+    return fs[0]
+
+
+def _body(fn):
+    return [k for k in kids([k for k in kids(fn) if k.get("kind") == "CompoundStmt"][0])
+            if not k.get("kind", "").endswith("Comment")]
+
+
+def _strip_casts(n):
+    while n.get("kind") in ("ImplicitCastExpr", "ParenExpr", "CXXStaticCastExpr", "CXXFunctionalCastExpr",
+                            "ConstantExpr") and len(kids(n)) == 1:
+        n = kids(n)[0]
+    return n
+
+
+def _iword_slot(call):
+    """`o.iword(<index variable>)` -> name of the index variable"""
+    if call.get("kind") != "CXXMemberCallExpr" or callee_name(call) != "iword" or len(kids(call)) != 2:
+        raise Refuse("expected o.iword(index)")
+    a = _strip_casts(kids(call)[1])
+    if a.get("kind") != "DeclRefExpr":
+        raise Refuse("iword index is not a variable")
+    return a["referencedDecl"]["name"]
+
+
+def _manipulator(fn, enum):
+    """`o.iword(slot) = <enumerator | bool | pf.t_>; return o;` -> (slot, value or 'arg')"""
+    st = _body(fn)
+    if len(st) != 2 or st[0].get("kind") != "BinaryOperator" or st[0].get("opcode") != "=" \
+            or st[1].get("kind") != "ReturnStmt":
+        raise Refuse("manipulator %s is not `o.iword(i) = v; return o;`" % fn.get("name"))
+    r = _strip_casts(kids(st[1])[0])
+    if r.get("kind") != "DeclRefExpr" or r["referencedDecl"].get("kind") != "ParmVarDecl":
+        raise Refuse("manipulator %s does not return its stream" % fn.get("name"))
+    lhs, rhs = kids(st[0])
+    slot = _iword_slot(_strip_casts(lhs))
+    rhs = _strip_casts(rhs)
+    if rhs.get("kind") == "DeclRefExpr" and rhs["referencedDecl"].get("kind") == "EnumConstantDecl":
+        return slot, dict(enum)[rhs["referencedDecl"]["name"]]
+    if rhs.get("kind") == "CXXBoolLiteralExpr":
+        return slot, 1 if rhs.get("value") in (True, "true", "True") else 0
+    if rhs.get("kind") == "MemberExpr" and rhs.get("name") == "t_":
+        return slot, "arg"
+    raise Refuse("manipulator %s stores something unknown (%s)" % (fn.get("name"), rhs.get("kind")))
+
+
+MANIPULATORS = ["c_language", "cpp_language", "mql_language", "python_language", "dump", "graphviz", "in_line",
+                "list", "tree", "long_form", "short_form"]
+
+
+def translate_export():
+    """the data flow  manipulator -> stream iword -> operator<< -> language(format)"""
+    docs = ast_dump("export_tu.cc", "vita::out::")
+    pft = _enum(docs, "print_format_t")
+    sf = _enum(ast_dump("export_tu.cc", "vita::symbol::format"), "format")
+    for i, nm in enumerate(FORMATS):
+        if dict(sf).get(nm) != i:
+            raise Refuse("symbol::format::%s is not %d" % (nm, i))
+    manips = []
+    for m in MANIPULATORS:
+        slot, v = _manipulator(_fn_with_body(docs, m), pft)
+        manips.append((m, slot, v))
+    ps = lambda d: [qtype(k) for k in kids(d) if k.get("kind") == "ParmVarDecl"]
+    slot, v = _manipulator(_fn_with_body(docs, "operator<<", lambda d: any("print_format" in x for x in ps(d))), pft)
+    if v != "arg":
+        raise Refuse("operator<<(ostream&, print_format) does not store its argument")
+    manips.append(("print_format", slot, "arg"))
+    # the two readers
+    readers = {}
+    for nm in ("print_format_flag", "long_form_flag"):
+        st = _body(_fn_with_body(docs, nm))
+        if len(st) != 1 or st[0].get("kind") != "ReturnStmt":
+            raise Refuse("%s is not a single return" % nm)
+        readers[nm] = _iword_slot(_strip_casts(kids(st[0])[0]))
+    # operator<<(ostream&, const i_mep&)
+    odocs = ast_dump("export_tu.cc", "vita::operator<<")
+    op = _fn_with_body(odocs, "operator<<", lambda d: any("i_mep" in x for x in ps(d)))
+    st = _body(op)
+    if len(st) != 2 or st[0].get("kind") != "DeclStmt" or st[1].get("kind") != "SwitchStmt":
+        raise Refuse("operator<<(ostream&, i_mep) is not `format = print_format_flag(s); switch (format)`")
+    init = find_all(st[0], lambda x: x.get("kind") == "CallExpr")
+    if len(init) != 1 or callee_name(init[0]) != "print_format_flag":
+        raise Refuse("operator<<(ostream&, i_mep): format is not print_format_flag(s)")
+    fvar = [x for x in find_all(st[0], lambda x: x.get("kind") == "VarDecl")][0].get("name")
+    sw = kids(st[1])
+    cond = _strip_casts(sw[0])
+    if cond.get("kind") != "DeclRefExpr" or cond["referencedDecl"].get("name") != fvar:
+        raise Refuse("operator<<(ostream&, i_mep) switches on something else than the format flag")
+    seq = flatten_switch(sw[-1])
+    cases, default = [], None
+    i = 0
+    while i < len(seq):
+        it = seq[i]
+        if it[0] == "stmt":
+            raise Refuse("operator<<(ostream&, i_mep): statement outside a label")
+        labels = []
+        while i < len(seq) and seq[i][0] != "stmt":
+            labels.append(seq[i])
+            i += 1
+        call = None
+        while i < len(seq) and seq[i][0] == "stmt":
+            n = seq[i][1]
+            i += 1
+            cs = [n] if n.get("kind") == "CallExpr" else \
+                ([_strip_casts(kids(n)[0])] if n.get("kind") == "ReturnStmt" and kids(n) else [])
+            if cs and cs[0].get("kind") == "CallExpr" and call is None:
+                call = cs[0]
+            if n.get("kind") == "ReturnStmt":
+                break
+        else:
+            raise Refuse("operator<<(ostream&, i_mep): a branch falls through")
+        if call is None:
+            raise Refuse("operator<<(ostream&, i_mep): a branch prints nothing")
+        for lb in labels:
+            if lb[0] == "case":
+                cases.append((lb[1], callee_name(call)))
+            else:
+                if callee_name(call) != "language" or len(kids(call)) != 4:
+                    raise Refuse("default branch of operator<<(ostream&, i_mep) is not language(s, f, ind)")
+                a = _strip_casts(kids(call)[2])
+                if a.get("kind") != "BinaryOperator" or a.get("opcode") != "-":
+                    raise Refuse("default branch: the symbol format is not `format - language_f`")
+                l, r = [_strip_casts(x) for x in kids(a)]
+                if l.get("kind") != "DeclRefExpr" or l["referencedDecl"].get("name") != fvar or \
+                        r.get("kind") != "DeclRefExpr" or r["referencedDecl"].get("kind") != "EnumConstantDecl":
+                    raise Refuse("default branch: the symbol format is not `format - <enumerator>`")
+                default = dict(pft)[r["referencedDecl"]["name"]]
+    if default is None:
+        raise Refuse("operator<<(ostream&, i_mep) has no default branch")
+    # operator<<(ostream&, const team<T>&)
+    tds = [k for d in odocs if d.get("kind") == "FunctionTemplateDecl" for k in kids(d)
+           if k.get("kind") == "FunctionDecl" and any("team<" in x for x in ps(k))
+           and any(c.get("kind") == "CompoundStmt" for c in kids(k))]
+    if len(tds) != 1:
+        raise Refuse("operator<<(ostream&, team<T>) not found")
+    st = _body(tds[0])
+    if len(st) != 3 or st[0].get("kind") != "DeclStmt" or st[1].get("kind") != "CXXForRangeStmt" or \
+            st[2].get("kind") != "ReturnStmt":
+        raise Refuse("operator<<(ostream&, team<T>) is not `format = ...; for (i : t) {...} return s;`")
+    init = find_all(st[0], lambda x: x.get("kind") == "CallExpr")
+    if len(init) != 1 or callee_name(init[0]) != "print_format_flag":
+        raise Refuse("operator<<(ostream&, team): format is not print_format_flag(s)")
+    tfvar = find_all(st[0], lambda x: x.get("kind") == "VarDecl")[0].get("name")
+    fr = kids(st[1])
+    rng_init = find_all(fr[0], lambda x: x.get("kind") == "DeclRefExpr")
+    if not rng_init or rng_init[0]["referencedDecl"].get("kind") != "ParmVarDecl":
+        raise Refuse("operator<<(ostream&, team): the loop does not range over the team")
+    loopvar = [x for x in find_all(st[1], lambda x: x.get("kind") == "VarDecl") if not x.get("name", "").startswith("__")]
+    if len(loopvar) != 1:
+        raise Refuse("operator<<(ostream&, team): loop variable not found")
+    loopvar = loopvar[0].get("name")
+
+    def tstmt(n):
+        k = n.get("kind")
+        if k == "CompoundStmt":
+            return [x for c in kids(n) for x in tstmt(c)]
+        if k == "CXXOperatorCallExpr":
+            ks = kids(n)
+            if len(ks) != 3:
+                raise Refuse("team: unexpected operator call")
+            nm = callee_name(n) or (ks[0].get("name") if ks[0].get("kind") == "UnresolvedLookupExpr" else None)
+            if nm != "operator<<":
+                raise Refuse("team: operator %r" % nm)
+            a, b = _strip_casts(ks[1]), _strip_casts(ks[2])
+            if a.get("kind") != "DeclRefExpr" or a["referencedDecl"].get("kind") != "ParmVarDecl":
+                raise Refuse("team: output does not go to the stream parameter")
+            if b.get("kind") == "CharacterLiteral":
+                return [("put", int(b["value"]))]
+            if b.get("kind") == "DeclRefExpr" and b["referencedDecl"].get("name") == loopvar:
+                return [("member",)]
+            raise Refuse("team: prints something unknown (%s)" % b.get("kind"))
+        if k == "IfStmt":
+            ks = kids(n)
+            c = ks[0]
+            if c.get("kind") != "BinaryOperator" or c.get("opcode") != "==":
+                raise Refuse("team: condition is not ==")
+            l, r = [_strip_casts(x) for x in kids(c)]
+            if l.get("kind") != "DeclRefExpr" or l["referencedDecl"].get("name") != tfvar or \
+                    r.get("kind") != "DeclRefExpr" or r["referencedDecl"].get("kind") != "EnumConstantDecl":
+                raise Refuse("team: condition is not `format == <enumerator>`")
+            return [("if", dict(pft)[r["referencedDecl"]["name"]], tstmt(ks[1]), tstmt(ks[2]) if len(ks) > 2 else [])]
+        raise Refuse("team: statement %s not understood" % k)
+
+    team = tstmt(fr[-1])
+    return {"print_format_t": pft, "symbol_format": sf, "manipulators": manips, "readers": readers,
+            "cases": cases, "default_base": default, "team": team}
+
+
+def _team_lean(st):
+    def prims(ps):
+        out = []
+        for x in ps:
+            if x[0] == "put":
+                out.append(".put %d" % x[1])
+            elif x[0] == "member":
+                out.append(".member")
+            else:
+                raise Refuse("team: nested conditions are not handled")
+        return "[" + ", ".join(out) + "]"
+    out = []
+    for x in st:
+        if x[0] == "if":
+            out.append(".ifFmt %d %s %s" % (x[1], prims(x[2]), prims(x[3])))
+        else:
+            out.append(".prim " + prims([x])[1:-1])
+    return "[" + ", ".join(out) + "]"
+
+
+def render_export(x):
+    o = []
+    o.append("/- GENERATED by tools/translate_templates.py from the clang AST of /repo's working tree")
+    o.append("   (environment.h / symbol.h enums, individual.cc manipulators, i_mep.cc and team.tcc operator<<).")
+    o.append("   Do not edit: every run of the check regenerates it. -/")
+    o.append("import Vita.C19.Stream")
+    o.append("namespace Vita.C19.Gen")
+    o.append("open Vita.C19")
+    o.append("")
+    o.append("/-- enum out::print_format_t -/")
+    o.append("def printFormatT : List (String × Nat) := [" + ", ".join('(%s, %d)' % (lean_str(n), v) for n, v in x["print_format_t"]) + "]")
+    o.append("/-- enum symbol::format -/")
+    o.append("def symbolFormat : List (String × Nat) := [" + ", ".join('(%s, %d)' % (lean_str(n), v) for n, v in x["symbol_format"]) + "]")
+    o.append("/-- manipulator -> (iword slot written, value stored; none = the manipulator's argument) -/")
+    o.append("def manipulators : List (String × String × Option Nat) := [" + ",\n  ".join(
+        '(%s, %s, %s)' % (lean_str(n), lean_str(sl), "none" if v == "arg" else "some %d" % v) for n, sl, v in x["manipulators"]) + "]")
+    o.append("/-- the iword slot read by print_format_flag / long_form_flag -/")
+    o.append("def formatSlot : String := " + lean_str(x["readers"]["print_format_flag"]))
+    o.append("def longSlot : String := " + lean_str(x["readers"]["long_form_flag"]))
+    o.append("/-- operator<<(ostream&, const i_mep&): case label -> function called -/")
+    o.append("def dispatchCases : List (Nat × String) := [" + ", ".join('(%d, %s)' % (v, lean_str(c)) for v, c in x["cases"]) + "]")
+    o.append("/-- its default branch: language(s, symbol::format(format - dispatchBase), ind) -/")
+    o.append("def dispatchBase : Nat := %d" % x["default_base"])
+    o.append("/-- operator<<(ostream&, const team<T>&): the statements executed for every member -/")
+    o.append("def teamBody : List TeamStmt := " + _team_lean(x["team"]))
+    o.append("")
+    o.append("end Vita.C19.Gen")
+    return "\n".join(o) + "\n"
+
+
+def emit_export(path):
+    x = translate_export()
+    txt = render_export(x)
+    old = open(path).read() if os.path.exists(path) else None
+    if old != txt:
+        with open(path, "w") as f:
+            f.write(txt)
+    return x, old is not None and old != txt
+
+
 def emit(path):
     fs, ts = translate()
     txt = render(fs, ts)
@@ -406,5 +681,8 @@ def emit(path):
 
 
 if __name__ == "__main__":
-    fs, ts = translate()
-    sys.stdout.write(render(fs, ts))
+    if sys.argv[1:] == ["export"]:
+        sys.stdout.write(render_export(translate_export()))
+    else:
+        fs, ts = translate()
+        sys.stdout.write(render(fs, ts))
